@@ -4,7 +4,7 @@
  * page and, in a second pass, BEGINS exactly after one; an access outside the range faults and is reported with the
  * failing input.  Inputs must come back unmodified, outputs must equal the same operation on roomy buffers.
  * Covered: one-shot enc/dec (len 0..LMAX, several AAD lengths, tag 8/12/16) and init / update(p) / update(L) / finalize
- * for all p, L in 0..SMAX (partial 16-byte blocks carried between calls).  Not covered: the _nt variants (64-byte alignment rule). */
+ * for all p, L in 0..SMAX (partial 16-byte blocks carried between calls); the _nt variants under their documented 64-byte rule. */
 #define _GNU_SOURCE
 #include <stdio.h>
 #include <stdlib.h>
@@ -42,6 +42,16 @@ typedef void (*pre_fn)(KD *);
         void _aes_gcm_precomp_128_##f(KD *);                                                                                     \
         void _aes_gcm_precomp_256_##f(KD *);
 FAMS(DECL)
+#define DECLNT(f)                                                                                                                \
+        void _aes_gcm_enc_128_##f##_nt(const KD *, CD *, uint8_t *, const uint8_t *, uint64_t, uint8_t *, const uint8_t *, uint64_t, uint8_t *, uint64_t); \
+        void _aes_gcm_dec_128_##f##_nt(const KD *, CD *, uint8_t *, const uint8_t *, uint64_t, uint8_t *, const uint8_t *, uint64_t, uint8_t *, uint64_t); \
+        void _aes_gcm_enc_256_##f##_nt(const KD *, CD *, uint8_t *, const uint8_t *, uint64_t, uint8_t *, const uint8_t *, uint64_t, uint8_t *, uint64_t); \
+        void _aes_gcm_dec_256_##f##_nt(const KD *, CD *, uint8_t *, const uint8_t *, uint64_t, uint8_t *, const uint8_t *, uint64_t, uint8_t *, uint64_t); \
+        void _aes_gcm_enc_128_update_##f##_nt(const KD *, CD *, uint8_t *, const uint8_t *, uint64_t);                           \
+        void _aes_gcm_dec_128_update_##f##_nt(const KD *, CD *, uint8_t *, const uint8_t *, uint64_t);                           \
+        void _aes_gcm_enc_256_update_##f##_nt(const KD *, CD *, uint8_t *, const uint8_t *, uint64_t);                           \
+        void _aes_gcm_dec_256_update_##f##_nt(const KD *, CD *, uint8_t *, const uint8_t *, uint64_t);
+FAMS(DECLNT)
 struct fam {
         const char *name;
         oneshot_fn one[2][2]; /* [keysize][dec] */
@@ -49,13 +59,17 @@ struct fam {
         upd_fn upd[2][2];
         fin_fn fin[2][2];
         pre_fn pre[2];
+        oneshot_fn one_nt[2][2];
+        upd_fn upd_nt[2][2];
 };
 #define ENTRY(f)                                                                                                                 \
         { #f, { { _aes_gcm_enc_128_##f, _aes_gcm_dec_128_##f }, { _aes_gcm_enc_256_##f, _aes_gcm_dec_256_##f } },                \
           { _aes_gcm_init_128_##f, _aes_gcm_init_256_##f },                                                                      \
           { { _aes_gcm_enc_128_update_##f, _aes_gcm_dec_128_update_##f }, { _aes_gcm_enc_256_update_##f, _aes_gcm_dec_256_update_##f } }, \
           { { _aes_gcm_enc_128_finalize_##f, _aes_gcm_dec_128_finalize_##f }, { _aes_gcm_enc_256_finalize_##f, _aes_gcm_dec_256_finalize_##f } }, \
-          { _aes_gcm_precomp_128_##f, _aes_gcm_precomp_256_##f } },
+          { _aes_gcm_precomp_128_##f, _aes_gcm_precomp_256_##f },                                                                \
+          { { _aes_gcm_enc_128_##f##_nt, _aes_gcm_dec_128_##f##_nt }, { _aes_gcm_enc_256_##f##_nt, _aes_gcm_dec_256_##f##_nt } },  \
+          { { _aes_gcm_enc_128_update_##f##_nt, _aes_gcm_dec_128_update_##f##_nt }, { _aes_gcm_enc_256_update_##f##_nt, _aes_gcm_dec_256_update_##f##_nt } } },
 static struct fam fams[] = { FAMS(ENTRY) };
 
 static sigjmp_buf jb;
@@ -169,6 +183,63 @@ int main(int argc, char **argv)
                                                         }
                                                         if (memcmp(keep, ref_out, p + L) || memcmp(tag, ref_tag, tl)) {
                                                                 printf("DIFFERENT-RESULT %s streaming %s-%d update(%u) update(%u) != one-shot\ncases=%lu\n", F->name, dec ? "dec" : "enc", ks ? 256 : 128, p, L, cases);
+                                                                return 1;
+                                                        }
+                                                }
+                                }
+                        /* C. non-temporal variants under their documented rule: data buffers 64-byte aligned, every update but the last a
+                         * multiple of 64 bytes.  Buffers begin right after an unmapped page (aligned) or end at one when the length allows it. */
+                        for (int dec = 0; dec < 2; dec++)
+                                for (int mode = 0; mode < 2; mode++) {
+                                        for (unsigned len = 0; len <= lmax; len++) {
+                                                uint64_t al = aads[len % 5], tl = tags[len % 3];
+                                                unsigned pad = (len + 63) & ~63u;
+                                                for (unsigned i = 0; i < len; i++) src[i] = (uint8_t) rnd();
+                                                for (unsigned i = 0; i < al; i++) aadv[i] = (uint8_t) rnd();
+                                                for (unsigned i = 0; i < 12; i++) ivv[i] = (uint8_t) rnd();
+                                                uint8_t *in = mode ? R_in.lo : R_in.hi - pad, *out = mode ? R_out.lo : R_out.hi - pad, *iv = place(R_iv, 12, 0),
+                                                        *aad = place(R_aad, al, 0), *tag = place(R_tag, tl, 0);
+                                                memcpy(in, src, len); memcpy(iv, ivv, 12); memcpy(aad, aadv, al);
+                                                F->one[ks][dec](&kd, &cd2, ref_out, src, len, ivv, aadv, al, ref_tag, tl);
+                                                cases++;
+                                                if (sigsetjmp(jb, 1)) {
+                                                        printf("FAULT %s one-shot _nt %s-%d len=%u aad=%llu placement=%s: access at %p outside the caller's ranges (in %p..+%u, out %p)\ncases=%lu\n",
+                                                               F->name, dec ? "dec" : "enc", ks ? 256 : 128, len, (unsigned long long) al, mode ? "begins-after-unmapped" : "ends-at-unmapped (64-byte granule)",
+                                                               (void *) fault_addr, in, len, out, cases);
+                                                        return 1;
+                                                }
+                                                F->one_nt[ks][dec](&kd, &cd, out, in, len, iv, aad, al, tag, tl);
+                                                if (memcmp(in, src, len)) { printf("MODIFIED-INPUT %s one-shot _nt len=%u\ncases=%lu\n", F->name, len, cases); return 1; }
+                                                if (memcmp(out, ref_out, len) || memcmp(tag, ref_tag, tl)) {
+                                                        printf("DIFFERENT-RESULT %s one-shot _nt %s-%d len=%u != temporal variant\ncases=%lu\n", F->name, dec ? "dec" : "enc", ks ? 256 : 128, len, cases);
+                                                        return 1;
+                                                }
+                                        }
+                                        for (unsigned p = 0; p <= 128; p += 64)
+                                                for (unsigned L = 0; L <= smax; L++) {
+                                                        uint64_t al = aads[(p / 64 + L) % 5], tl = tags[L % 3];
+                                                        unsigned pad = (L + 63) & ~63u;
+                                                        for (unsigned i = 0; i < p + L; i++) src[i] = (uint8_t) rnd();
+                                                        for (unsigned i = 0; i < al; i++) aadv[i] = (uint8_t) rnd();
+                                                        for (unsigned i = 0; i < 12; i++) ivv[i] = (uint8_t) rnd();
+                                                        uint8_t *in1 = place(R_in, p, mode), *out1 = place(R_out, p, mode), *in2 = mode ? R_in2.lo : R_in2.hi - pad,
+                                                                *out2 = mode ? R_out2.lo : R_out2.hi - pad, *iv = place(R_iv, 12, 0), *aad = place(R_aad, al, 0), *tag = place(R_tag, tl, 0);
+                                                        memcpy(in1, src, p); memcpy(in2, src + p, L); memcpy(iv, ivv, 12); memcpy(aad, aadv, al);
+                                                        F->one[ks][dec](&kd, &cd2, ref_out, src, p + L, ivv, aadv, al, ref_tag, tl);
+                                                        cases++;
+                                                        if (sigsetjmp(jb, 1)) {
+                                                                printf("FAULT %s streaming _nt %s-%d update(%u) then update(%u) placement=%s: access at %p outside the caller's ranges\ncases=%lu\n",
+                                                                       F->name, dec ? "dec" : "enc", ks ? 256 : 128, p, L, mode ? "begins-after-unmapped" : "ends-at-unmapped (64-byte granule)", (void *) fault_addr, cases);
+                                                                return 1;
+                                                        }
+                                                        F->init[ks](&kd, &cd, iv, aad, al);
+                                                        F->upd_nt[ks][dec](&kd, &cd, out1, in1, p);
+                                                        F->upd_nt[ks][dec](&kd, &cd, out2, in2, L);
+                                                        F->fin[ks][dec](&kd, &cd, tag, tl);
+                                                        memcpy(keep, out1, p); memcpy(keep + p, out2, L);
+                                                        if (memcmp(in1, src, p) || memcmp(in2, src + p, L)) { printf("MODIFIED-INPUT %s streaming _nt\ncases=%lu\n", F->name, cases); return 1; }
+                                                        if (memcmp(keep, ref_out, p + L) || memcmp(tag, ref_tag, tl)) {
+                                                                printf("DIFFERENT-RESULT %s streaming _nt %s-%d update(%u) update(%u) != one-shot\ncases=%lu\n", F->name, dec ? "dec" : "enc", ks ? 256 : 128, p, L, cases);
                                                                 return 1;
                                                         }
                                                 }
